@@ -107,6 +107,11 @@ def run (c : Case) : String :=
       let ans := if as.isEmpty then "-" else ",".intercalate (as.map renderAns)
       s!"res {c.id} out={renderOuts (ulule store inp e)} ans={ans}"
     | _, _ => s!"res {c.id} bad-script"
+  | "native-twin" =>
+    -- the same limiter VALUE applied to two sources, both subscriptions alive, the first one then cancelled / unsubscribed: a
+    -- pipeline is a function of its own source (C12 reapply; the limiter keeps nothing outside its subscribe functions: the
+    -- regenerated BuildTime table), so the second stream goes on: one item per window, spaced more than a window apart, all delivered
+    s!"res {c.id} items={c.getD "k" "5"} term=C"
   | "native-rt" =>
     match c.get "in", c.get "obs" with
     | some i, some o =>
